@@ -15,7 +15,7 @@ import progs
 import events
 import specdiff
 
-THEOREM_MODULES = ["Yarel.Props.C08", "Yarel.Props.C04"]
+THEOREM_MODULES = ["Yarel.Props.C08", "Yarel.Props.C04", "Yarel.Props.ModelLimits"]
 REQUIRED_THEOREMS = ["unwind_contract", "unwind_uncaught", "handler_lifo", "unwind_selects_innermost", "balanced_region",
                      "finally_flag", "handlers_per_fiber", "verify_sound"]
 LEVEL = "proof"
@@ -210,7 +210,7 @@ def correspondence(ctx, model_ok=True):
     rng = ctx.rng.fork("c08")
     failures = []
     broken = []
-    n_gen = 1500 if ctx.thorough else 720
+    n_gen = 9000 if ctx.thorough else 720
     gen = progs.generated(rng, PROFILES, n_gen)
     scripts = progs.corpus_scripts()
     allp = [(n, s, m) for n, s, m, _ in gen] + scripts
